@@ -740,6 +740,7 @@ func (c09) ws(sc core.Scenario, r *core.R) {
 	usedIDs := map[string]bool{}
 	n := sc.I("n")
 	sent := 0
+	invalidIDFrames := 0
 	for i := 0; i < n; i++ {
 		e := mkElem(c09Kinds[rng.Intn(len(c09Kinds))], rng)
 		if strings.Contains(e.Raw, `"method":""`) {
@@ -769,6 +770,9 @@ func (c09) ws(sc core.Scenario, r *core.R) {
 			}
 			usedIDs[e.IDKind+normal] = true
 			wants[normID(e.IDRaw)] = &want{e: e}
+		}
+		if e.IDKind == "invalid" {
+			invalidIDFrames++ // the id "could not be determined": such a frame may be answered with id null
 		}
 		if err := conn.WriteMessage(websocket.TextMessage, []byte(e.Raw)); err != nil {
 			r.Inconclusive("write: %v", err)
@@ -823,7 +827,12 @@ func (c09) ws(sc core.Scenario, r *core.R) {
 		w, ok := wants[normID(o.id)]
 		if !ok {
 			if o.id == "null" && o.hasErr {
-				extra++ // answer to a failing notification: allowed latitude
+				// only a frame whose id could not be determined may be answered with id null; a notification
+				// (id absent or null) gets no frame at all, failing or not
+				extra++
+				if extra > invalidIDFrames {
+					r.Violate("ws-notification-answered", "%d response frames with id null but only %d request frames carried an id of invalid type: a notification was answered: %s", extra, invalidIDFrames, core.Trunc(string(msg), 160))
+				}
 				continue
 			}
 			r.Violate("ws-unexpected-response", "response frame with id %s that no request frame carried: %s", o.id, core.Trunc(string(msg), 160))
